@@ -84,13 +84,23 @@ def commit (info : NodeInfo) (ws : List Workload) : Outcome NodeInfo :=
   let info' : NodeInfo := { info with use := commitUsage info.use ws }
   if info'.validate then .ok info' else .err errInvalid
 
-/-- `CalculateRealloc` with `keep-cpu-bind` and zero CPU delta (`raw.cpuReq = raw.cpuLim = 0`);
-    `raw.memReq`/`memLim` are the memory deltas.  Other shapes are out of the model's scope. -/
+/-- the float sums `req.CPURequest + origin.CPURequest` (and limits) are exact — hence equal to the
+    integer sums in thousandths — when the deltas are zero or all four amounts are multiples of
+    0.125 core; other shapes are outside the model (`.err "unmodelled"`, never generated). -/
+def reallocExact (origin : Workload) (raw : RawReq) : Prop :=
+  (raw.cpuReq = 0 ∧ raw.cpuLim = 0) ∨
+  (raw.cpuReq % 125 = 0 ∧ raw.cpuLim % 125 = 0 ∧ origin.cpuReq % 125 = 0 ∧ origin.cpuLim % 125 = 0)
+
+instance (origin : Workload) (raw : RawReq) : Decidable (reallocExact origin raw) := by
+  unfold reallocExact; exact inferInstance
+
+/-- `CalculateRealloc`: `raw` holds the deltas (CPU in thousandths, memory); the request is validated
+    *after* adding the deltas and the validated values are the ones planned and recorded. -/
 def calculateRealloc (info : NodeInfo) (B maxShare : Int) (origin : Workload) (raw : RawReq) (order : List String) : Outcome Workload :=
-  if raw.cpuReq ≠ 0 ∨ raw.cpuLim ≠ 0 then .err "unmodelled" else
+  if ¬ reallocExact origin raw then .err "unmodelled" else
   let bind := if raw.keepBind then !origin.cpuMap.isEmpty else raw.bind
   let info' : NodeInfo := { info with use := info.use.sub { cpuMap := origin.cpuMap, mem := origin.memReq, numaMem := origin.numaMem } }
-  let newReq : RawReq := { bind := bind, cpuReq := origin.cpuReq, cpuLim := origin.cpuLim,
+  let newReq : RawReq := { bind := bind, cpuReq := raw.cpuReq + origin.cpuReq, cpuLim := raw.cpuLim + origin.cpuLim,
                            memReq := raw.memReq + origin.memReq, memLim := raw.memLim + origin.memLim }
   match newReq.validate with
   | .ok w =>
